@@ -1,5 +1,8 @@
 From Coq Require Import Extraction ExtrOcamlBasic.
-From GM Require Import Base.Topic Model.WsConn Model.SubTrie Model.SubSpec Model.TopicMatch Base.Msg Model.RetTrie Oracle.C18O Oracle.C02O Oracle.C07O Model.Queue Oracle.C10O Model.Limiter Oracle.C03O Model.Broker.
+From GM Require Import Base.Topic Model.WsConn Model.SubTrie Model.SubSpec Model.TopicMatch Base.Msg Model.RetTrie Oracle.C18O Oracle.C02O Oracle.C07O Model.Queue Oracle.C10O Model.Limiter Oracle.C03O Model.Broker
+  Model.CodecBase Model.CodecProps Model.CodecPackets Model.CodecSpec Oracle.C06O
+  Model.Redis Model.RQueue Model.Crash Oracle.C09O Model.Auth Oracle.C19O
+  Model.FedQueue Oracle.C16O Model.FedRoute Oracle.C17O.
 Extraction Language OCaml.
 Set Extraction KeepSingleton.
 Extraction "model.ml"
@@ -11,4 +14,27 @@ Extraction "model.ml"
   C10O.c10_ok C10O.model_outs C10O.oout_of
   C03O.c03_lim_ok C03O.lim_model C03O.alias_ok C03O.am_run Limiter.am_new C03O.unack_run C03O.unack_ok
   Broker.st_init Broker.step Broker.run Broker.no_hooks Broker.set_picks_tag
-  TopicMatch.valid_name_spec TopicMatch.valid_filter_spec Topic.topic_match.
+  TopicMatch.valid_name_spec TopicMatch.valid_filter_spec Topic.topic_match
+  CodecPackets.read_packet CodecPackets.read_packet_full CodecPackets.pack_full CodecPackets.pack CodecPackets.total_bytes
+  CodecPackets.message_to_publish CodecPackets.next_version
+  CodecSpec.spec_decode CodecSpec.spec_encode CodecSpec.wf_packet CodecSpec.spec_utf8 CodecSpec.has_ctl
+  C06O.model_stream C06O.model_stream_alloc C06O.model_dec1 C06O.model_reenc C06O.c06_decode_ok C06O.stream_ok C06O.alloc_ok C06O.alloc_agree
+  C06O.body_eqb C06O.may_reject
+  C06O.kf_varint_noncanonical C06O.kf_proplen_omitted C06O.kf_alloc_upfront
+  C06O.kf_ack_flags C06O.kf_trailing C06O.kf_prop_len_overrun C06O.kf_retain_handling_3 C06O.kf_nolocal_shared
+  C06O.kf_pid_zero C06O.kf_name_empty C06O.kf_connect_props_will C06O.kf_auth_v3
+  C06O.kf_v3_password_without_username C06O.kf_unsub_share_syntax C06O.kf_topic_fffd
+  C06O.c06_encode_ok C06O.kf_enc_topic_fffd C06O.step_ok
+  C06O.model_topic_obs C06O.topic_obs_eqb C06O.c06_topic_ok C06O.kf_t_name_empty C06O.kf_t_fffd C06O.kf_t_nul
+  C06O.c06_msg_ok C06O.model_msg_obs C06O.spec_reason
+  Redis.exec_all Redis.blob_eqb RQueue.rq_model RQueue.abstract_ops
+  Crash.cur_code Crash.all_fixed Crash.code_fixes Crash.sops_cmds Crash.sops_flat Crash.ru_run Crash.jcmds Crash.trim_left
+  C09O.kf_redis_hdel_slice C09O.kf_redis_trimleft C09O.reload_ops C09O.runack_ok C09O.kf_redis_unack_reload
+  C09O.c10r_ok C09O.rq_class Topic.split_topic C09O.crash_prefix_fails C09O.explain C09O.model_journal C09O.model_prefix
+  Auth.au_model_outs Auth.au_start Auth.au_step Auth.au_run Auth.au_validate Auth.broker_connect Auth.load_path Auth.au_load
+  C19O.c19_ok C19O.o_step C19O.file_wf C19O.cred_ok C19O.c19_connect_ok C19O.connect_servable
+  C19O.o_avail C19O.kf_authmethod_present C19O.known_version
+  FedQueue.fq_init FedQueue.fq_step FedQueue.view_of FedQueue.local_of FedQueue.fq_idle FedQueue.msg_event_form FedQueue.plain_sub
+  RetTrie.rdb_all FedRoute.fr_init FedRoute.fr_run FedRoute.fr_receive_all
+  C17O.c17_pub_ok C17O.plain_ok C17O.shared_ok C17O.retained_ok C17O.c17_recv_ok C17O.kf_shared_span C17O.pub_obs_of
+  C16O.c16_ok C16O.c16_safety_ok C16O.fq_model_obs C16O.kf_hello_reply_lost C16O.kf_event_not_utf8.
